@@ -68,7 +68,7 @@ OBLIGATIONS = {
     "C06": ["sstep_inv", "estep_inv", "c06_no_panic", "c06_bytes_total", "c06_immediate_or_held", "c06_at_most_once",
             "c06_nonblocking_sends", "c06_owner_progress", "c06_pinned_overflow_panics", "c06_todo_counterexample",
             "c11_timeout_fails", "c17_dispatch", "once_step", "c06_at_most_once_run", "c11_deadline_bound",
-            "c11_due_after_one_timeout"],
+            "c11_due_after_one_timeout", "ownerCont_meas", "c06_owner_steps_decrease", "c06_measure_wf"],
     "C09": ["c09_succeeded_settles", "c09_free_settles", "c09_pending_completed_settles", "c09_stale_pending_frees",
             "c09_pending_pays", "c09_from_wait", "c09_pinned_wedge"],
     "C14": ["c14_frame", "c14_own_state_only", "c14_frozen", "c14_no_pooling"],
@@ -93,7 +93,7 @@ PROP_SUITES = {
     "C18": ["tlv"],
     "C12": ["fee", "system"],
     "C10": ["classify", "tlv"],
-    "C13": ["classify", "tlv", "e2e"],
+    "C13": ["classify", "tlv", "e2e", "system"],
     "C15": ["provider"],
     "C16": ["provider"],
     "C20": ["height"],
